@@ -24,6 +24,8 @@ func main() {
 		runL5(os.Args[2:])
 	case "zoo":
 		runZoo(os.Args[2:])
+	case "sqlite":
+		runSQLite(os.Args[2:])
 	default:
 		fmt.Fprintln(os.Stderr, "unknown layer", os.Args[1])
 		os.Exit(3)
